@@ -115,22 +115,22 @@ func c05ScriptLedger(sc c02Script, sn internal.VerifSnapshot[int, int64], notes 
 // ---------------------------------------------------------------- owner-mode ledger
 
 type c05Write struct {
-	val  int64
-	ttl  time.Duration // 0 = none given by this call
-	dLo  int64         // earliest possible deadline (virtual now before the call + ttl), 0 if none
-	del  bool          // this record is a Delete
-	ok   bool          // Set returned true
+	val int64
+	ttl time.Duration // 0 = none given by this call
+	dLo int64         // earliest possible deadline (virtual now before the call + ttl), 0 if none
+	del bool          // this record is a Delete
+	ok  bool          // Set returned true
 }
 
 type c05Round struct {
-	MaxSize  int64 `json:"maxsize"`
-	Clients  int   `json:"clients"`
-	KeysPer  int   `json:"keys_per_client"`
-	Ops      int   `json:"ops_per_client"`
-	Pool     bool  `json:"entry_pool"`
-	TTLs     bool  `json:"ttls"`
-	Delay    int   `json:"h1_delay_mode"`
-	Notes    int   `json:"notifications"`
+	MaxSize  int64  `json:"maxsize"`
+	Clients  int    `json:"clients"`
+	KeysPer  int    `json:"keys_per_client"`
+	Ops      int    `json:"ops_per_client"`
+	Pool     bool   `json:"entry_pool"`
+	TTLs     bool   `json:"ttls"`
+	Delay    int    `json:"h1_delay_mode"`
+	Notes    int    `json:"notifications"`
 	ByReason [3]int `json:"by_reason"`
 }
 
@@ -499,6 +499,117 @@ func c05Kinds(r *Run, idx int) {
 	r.Distinct(fmt.Sprintf("kinds/%s/pool=%v/fail=%d", kind, pool, failPct))
 }
 
+// c05HybridEvictions: a small hybrid / hybrid-loading cache (entry pool on or off) whose secondary store refuses half
+// or all of the writes. Every key is stored once with a value that names it. After all writes are applied and all
+// hand-offs processed each key is in exactly one place: resident in memory, held by the secondary store with its
+// value (the write succeeded: it has not left the cache, no notification), or reported to the listener exactly
+// once as EVICTED with its own key and value (the write was refused, or the hand-off queue was full).
+func c05HybridEvictions(r *Run, idx int) {
+	rng := r.Rng(int64(56000 + idx))
+	kind := []string{"hybrid", "hybrid-loading"}[idx%2]
+	pool := (idx/2)%2 == 1
+	failPct := []int{50, 100}[rng.Intn(2)]
+	M := []int64{8, 16, 64}[rng.Intn(3)]
+	bar := &secBarrier{}
+	internal.VerifSetHook(bar.hook)
+	defer internal.VerifSetHook(nil)
+	nl := &noteLog[int, int64]{}
+	a, err := newAnyCache(kind, anyOpts{MaxSize: M, Listener: nl.listener(), Pool: pool, Prob: 1, ProbSet: true, Workers: 1 + rng.Intn(3)})
+	if err != nil {
+		r.Broken("build: %v", err)
+		return
+	}
+	defer a.store().Close()
+	frng := rand.New(rand.NewSource(rng.Int63()))
+	var fmu sync.Mutex
+	a.sec.fail = func(op string, n int64) bool {
+		if op != "set" {
+			return false
+		}
+		fmu.Lock()
+		defer fmu.Unlock()
+		return frng.Intn(100) < failPct
+	}
+	N := 1000 + rng.Intn(1500)
+	val := func(k int) int64 { return int64(k)<<20 | 0x5a5a5 }
+	for k := 0; k < N; k++ {
+		a.set(k, val(k), 1, 0)
+		if k%64 == 63 {
+			a.wait() // pace the writes so that the hand-off queue does not overflow all the time
+		}
+	}
+	if !bar.settle(a) {
+		r.Inconclusive(1)
+		return
+	}
+	resident := map[int]int64{}
+	for _, e := range a.store().VerifSnapshot().Map {
+		resident[e.Key] = e.Value
+	}
+	byKey := map[int][]note[int, int64]{}
+	for _, n := range nl.snapshot() {
+		byKey[n.Key] = append(byKey[n.Key], n)
+	}
+	viol := func(key, what string) {
+		r.Violate(key+"/"+kind, fmt.Sprintf("hybrid-evictions round %d (%s cache, MaxSize %d, pool=%v, secondary refusing %d%% of its writes, %d keys): %s", idx, kind, M, pool, failPct, N, what),
+			map[string]any{"round": idx, "cache": kind, "pool": pool})
+	}
+	var nowhere, twice, wrongVal, both, foreign int
+	var first string
+	for k, ns := range byKey {
+		if k < 0 || k >= N {
+			foreign++
+			if first == "" {
+				first = fmt.Sprintf("the listener was called for key %d, which was never stored (value %#x)", k, ns[0].Val)
+			}
+		}
+	}
+	for k := 0; k < N; k++ {
+		ns := byKey[k]
+		_, inMem := resident[k]
+		rec, inSec := a.sec.peek(k)
+		inSec = inSec && rec.Val == val(k)
+		switch {
+		case len(ns) > 1:
+			twice++
+		case len(ns) == 1 && (ns[0].Val != val(k) || ns[0].Reason != theine.EVICTED):
+			wrongVal++
+			if first == "" {
+				first = fmt.Sprintf("key %d was stored with value %#x and reported as (%#x, %s)", k, val(k), ns[0].Val, reasonName(ns[0].Reason))
+			}
+		case len(ns) == 1 && (inMem || inSec):
+			both++
+			if first == "" {
+				first = fmt.Sprintf("key %d was reported EVICTED although it is still in the cache (memory: %v, secondary store: %v)", k, inMem, inSec)
+			}
+		case len(ns) == 0 && !inMem && !inSec:
+			nowhere++
+			if first == "" {
+				first = fmt.Sprintf("key %d is neither in memory nor in the secondary store and was never reported", k)
+			}
+		}
+	}
+	if foreign > 0 {
+		viol("notified-unknown-value", fmt.Sprintf("%d notifications for keys that were never stored (first: %s)", foreign, first))
+	}
+	if wrongVal > 0 {
+		viol("notified-wrong-value-or-reason", fmt.Sprintf("%d entries were reported with a value other than the one they held, or a reason other than EVICTED (first: %s)", wrongVal, first))
+	}
+	if twice > 0 {
+		viol("notified-twice", fmt.Sprintf("%d entries were reported more than once", twice))
+	}
+	if both > 0 {
+		viol("notified-while-resident", fmt.Sprintf("%d entries were reported although they are still in the cache (first: %s)", both, first))
+	}
+	if nowhere > 0 {
+		viol("no-notification/evicted-entry", fmt.Sprintf("%d entries left the cache without a notification (first: %s)", nowhere, first))
+	}
+	r.Eval(1)
+	r.Count("hybrid_eviction_rounds", 1)
+	r.Count("hybrid_eviction_notifications", int64(len(nl.snapshot())))
+	r.Distinct(fmt.Sprintf("hybrid-evictions/%s/pool=%v/fail=%d/M%d", kind, pool, failPct, M))
+}
+
 func runC05(r *Run) {
 	r.Rule("cases: owner-mode concurrent rounds (each key written by one goroutine, shared cache, unique values, exact per-key ledger), deterministic delete-vs-eviction overlaps, the C02 phase-scheduler scripts replayed with the script ledger, and ledger rounds on loading / hybrid / hybrid-loading caches (pool on and off, memory tier large enough that nothing is evicted, Deletes concurrent with Sets of other keys, secondary store refusing a quarter of its calls in a third of the rounds). " +
 		"Non-trivial = a round in which entries left by at least two different reasons (distinct by configuration and per-reason counts) or a script in which an event overtook another client's event")
@@ -515,5 +626,8 @@ func runC05(r *Run) {
 	nk := r.Pick(6, 60)
 	for i := 0; i < nk; i++ {
 		c05Kinds(r, r.Shard*nk+i)
+	}
+	for i := 0; i < r.Pick(4, 40); i++ {
+		c05HybridEvictions(r, r.Shard*4+i)
 	}
 }
